@@ -219,3 +219,80 @@ Definition normalise_cells (start_index : Z) (rm : bool) (a : arr) : result arr 
   let d := rank_compress a in
   rbind (if rm then remove_empty_columns d else Ok d)
         (fun d => Ok (if start_index =? 0 then d else amap (fun v => v + 1) d)).
+
+
+(* ---- Topology._normalise_cell_ids (point cells, cell connectivity) ---------- *)
+Definition zmax (l : list Z) : Z := fold_right Z.max (hd 0 l) l.
+Definition zmin (l : list Z) : Z := fold_right Z.min (hd 0 l) l.
+
+(* ids.tolist(): the first column; a missing identifier is not supported *)
+Fixpoint first_col (a : arr) : option (list Z) :=
+  match a with
+  | [] => Some []
+  | (Some v :: _) :: t => option_map (cons v) (first_col t)
+  | _ => None
+  end.
+
+Fixpoint zseq (start : Z) (n : nat) : list Z :=
+  match n with O => [] | S k => start :: zseq (start + 1) k end.
+
+(* for i, j in zip(ids, range(-n, 0)): np.copyto(data, j, where=data == i) *)
+Fixpoint relabel_loop (ids : list Z) (j : Z) (a : arr) : arr :=
+  match ids with
+  | [] => a
+  | i :: r => relabel_loop r (j + 1) (amap (fun v => if v =? i then j else v) a)
+  end.
+
+(* np.ma.where(cond, masked, data) *)
+Definition mask_where (p : Z -> bool) (a : arr) : arr :=
+  map (map (fun o => match o with Some v => if p v then None else Some v | None => None end)) a.
+
+(* data[:, 1:].sort(axis=1, endwith=True) *)
+Fixpoint insert_s (x : Z) (l : list Z) : list Z :=
+  match l with
+  | [] => [x]
+  | y :: r => if x <=? y then x :: l else y :: insert_s x r
+  end.
+Definition sort_z (l : list Z) : list Z := fold_right insert_s [] l.
+
+Definition sort_tail (r : row) : row :=
+  match r with
+  | [] => []
+  | h :: t => h :: map Some (sort_z (present t)) ++ repeat None (length t - length (present t))
+  end.
+
+Definition normalise_ids (start_index : Z) (rm : bool) (a : arr) : result arr :=
+  match first_col a with
+  | None => Err OtherErr
+  | Some [] => Err IndexErr
+  | Some ((id0 :: _) as ids) =>
+    let n := length ids in
+    let relabel := negb (((id0 =? 0) && list_eqb Z.eqb ids (zseq 0 n))
+                         || ((id0 =? 1) && list_eqb Z.eqb ids (zseq 1 n))) in
+    let '(data, smallest, largest) :=
+      if relabel then
+        let dmin := zmin (all_present a) in
+        let d := if dmin <? 0 then amap (fun v => v - dmin) a else a in
+        let ids' := if dmin <? 0 then map (fun v => v - dmin) ids else ids in
+        (relabel_loop ids' (- Z.of_nat n) d, None, -1)
+      else
+        let d := if negb (start_index =? 0) && (id0 =? 0) then amap (fun v => v + 1) a
+                 else if (start_index =? 0) && (id0 =? 1) then amap (fun v => v - 1) a
+                 else a in
+        let col := match first_col d with Some c => c | None => [] end in
+        (d, Some (hd 0 col), last col 0) in
+    let '(data, move) :=
+      if zmax (all_present data) >? largest
+      then (mask_where (fun v => v >? largest) data, true) else (data, false) in
+    let '(data, move) :=
+      match smallest with
+      | Some s => if zmin (all_present data) <? s
+                  then (mask_where (fun v => v <? s) data, true) else (data, move)
+      | None => (data, move)
+      end in
+    let data := if move then map sort_tail data else data in
+    rbind (if rm then remove_empty_columns data else Ok data)
+          (fun data => Ok (if relabel
+                           then amap (fun v => v + Z.of_nat n + (if start_index =? 0 then 0 else 1)) data
+                           else data))
+  end.
